@@ -618,6 +618,21 @@ def rule_wide_integers_read_exactly(ctx, rep: Report, rid="K14"):
                     ty = typed_read(n_["inner"][1]) if len(n_["inner"]) > 1 else None
                     if ty:
                         found[labs[0]] = ty
+    # every class id that is given a typed read of its own is read through the type of *its* width and signedness (labels that
+    # share one body - `case mxINT32_CLASS: case mxUINT32_CLASS:` - share one cast, right for one of them at most)
+    exact = {"mxINT8_CLASS": ("int8_t*", "signedchar*"), "mxUINT8_CLASS": ("uint8_t*", "unsignedchar*"),
+             "mxINT16_CLASS": ("int16_t*", "short*"), "mxUINT16_CLASS": ("uint16_t*", "unsignedshort*"),
+             "mxINT32_CLASS": ("int32_t*", "int*"), "mxUINT32_CLASS": ("uint32_t*", "unsignedint*", "unsigned*"),
+             "mxSINGLE_CLASS": ("float*",), "mxDOUBLE_CLASS": ("double*",),
+             "mxLOGICAL_CLASS": ("bool*", "mxLogical*", "unsignedchar*"), "mxCHAR_CLASS": ("mxChar*", "char16_t*", "unsignedshort*", "uint16_t*")}
+    for cls in sorted(found):
+        if cls in exact:
+            got = found[cls]
+            signed_ok = not (cls.startswith("mxINT") and ("unsigned" in got or "uint" in got)) and \
+                not (cls.startswith("mxUINT") and not ("unsigned" in got or "uint" in got))
+            rep.add(rid, f"myGetScalar:{cls} read through the type of its own width and signedness", signed_ok and any(got.endswith(t) for t in exact[cls]),
+                    f"{cls} is read as {got}: a value outside the range the two types share arrives as another number "
+                    f"(uint32(3000000000) read through int32_t is negative, hence 18446744072414584320 as a size_t)", hloc(f))
     want = {"mxINT64_CLASS": ("int64_t*", "longlong*", "long*"), "mxUINT64_CLASS": ("uint64_t*", "unsignedlonglong*", "unsignedlong*")}
     for cls, tys in want.items():
         got = found.get(cls)
